@@ -17,6 +17,7 @@ structure SProg where
   ver : Option Nat
   chk : Bool
   ev : EvalRes
+  args : String := "-"     -- token of the LogicSig arguments (they travel with the program in this instance; only the cache compares them)
 
 structure STx where
   id : String
@@ -112,7 +113,7 @@ def parsePQ (t : String) : Option (PQSig symT) :=
     | _, _ => none
   | _ => none
 
-def noProg : SProg := ⟨"-", 0, none, false, .error⟩
+def noProg : SProg := ⟨"-", 0, none, false, .error, "-"⟩
 
 def parseEv : String → EvalRes
   | "p" => .pass
@@ -126,7 +127,7 @@ def parseLsig (t : String) : Option (LSig symT) :=
   | some p, some len, some ver, some chk, some ev, some na, some al, some sg, some ms, some lms, some pq =>
     match len.toNat?, na.toNat?, al.toNat?, parseMsig ms, parseMsig lms, parsePQ pq with
     | some len, some na, some al, some ms, some lms, some pq =>
-      some ⟨⟨p, len, ver.toNat?, chk == "1", parseEv ev⟩, sg, ms, lms, pq, na, al⟩
+      some ⟨⟨p, len, ver.toNat?, chk == "1", parseEv ev, (kv f "args").getD "-"⟩, sg, ms, lms, pq, na, al⟩
     | _, _, _, _, _, _ => none
   | _, _, _, _, _, _, _, _, _, _, _ => none
 
@@ -185,23 +186,70 @@ def showRes : Res → String
 
 /-! ### verify layer: one group per line -/
 
-def handleGroup (toks : List String) : String :=
+/-- header and members of a group line (after the leading `g` / `c add` / `c via`) -/
+def parseGroup (toks : List String) : Option (String × Params × Option Int × List (STxn symT)) :=
   match sections toks with
   | hdr :: rest =>
-    match kv hdr "P", kv hdr "pre", kv hdr "n" with
-    | some p, some pre, some n =>
+    match kv hdr "proto", kv hdr "P", kv hdr "pre", kv hdr "n" with
+    | some proto, some p, some pre, some n =>
       match parseParams p, n.toNat? with
       | some P, some n =>
         let pre : Option Int := if pre == "ok" then none else some (pre.toInt?.getD (-1))
         -- the last section is raw=…
         let body := rest.take (rest.length - 1)
-        if body.length ≠ n then "bad-op" else
-        match parseAll parseStxn body with
-        | some grp => showRes (verifyGroup (symEnv pre) P grp)
-        | none => "bad-op"
-      | _, _ => "bad-op"
-    | _, _, _ => "bad-op"
-  | [] => "bad-op"
+        if body.length ≠ n then none else
+        (parseAll parseStxn body).map fun grp => (proto, P, pre, grp)
+      | _, _ => none
+    | _, _, _, _ => none
+  | [] => none
+
+def handleGroup (toks : List String) : String :=
+  match parseGroup toks with
+  | some (_, P, pre, grp) => showRes (verifyGroup (symEnv pre) P grp)
+  | none => "bad-op"
+
+/-! ### the verified-transaction cache: `c reset` / `c add …` / `c via …` -/
+
+abbrev Cache := List (CacheEntry symT String)     -- context = protocol name (the special addresses are fixed in the harness)
+
+def subsEq : List (SubSig symT) → List (SubSig symT) → Bool
+  | [], [] => true
+  | a :: x, b :: y => a.key == b.key && a.sig == b.sig && subsEq x y
+  | _, _ => false
+
+/-- MultisigSig.Equal: version, threshold, length and every subsig (a nil and an empty slice are equal to it) -/
+def msigEq (a b : MSig symT) : Bool := a.version == b.version && a.threshold == b.threshold && subsEq a.subs b.subs
+
+def pqEq (a b : PQSig symT) : Bool := a.scheme == b.scheme && a.salt == b.salt && a.pk == b.pk && a.sig == b.sig
+
+/-- LogicSig.Equal: the four delegation fields, the program and the arguments -/
+def lsigEq (a b : LSig symT) : Bool :=
+  a.sig == b.sig && msigEq a.msig b.msig && msigEq a.lmsig b.lmsig && pqEq a.pqsig b.pqsig &&
+  a.logic.id == b.logic.id && a.logic.args == b.logic.args && a.numArgs == b.numArgs
+
+def symQ : FieldEq symT := ⟨fun a b => a.id == b.id, fun a b => a == b, msigEq, lsigEq, pqEq, fun a b => a == b⟩
+
+def showVia : ViaRes → String
+  | .hit => "hit"
+  | .miss r => "miss " ++ showRes r
+  | .panicked => "panic"
+
+def cacheStep (fields : List Field) (c : Cache) (toks : List String) : Cache × String :=
+  match toks with
+  | ["reset"] => ([], "ok")
+  | "add" :: rest =>
+    match parseGroup rest with
+    | some (proto, P, pre, grp) =>
+      let (r, c') := verifyAdd (symEnv pre) P c proto grp
+      (c', "add " ++ showRes r)
+    | none => (c, "bad-op")
+  | "via" :: rest =>
+    match parseGroup rest with
+    | some (proto, P, pre, grp) =>
+      let (r, c') := verifyVia (symEnv pre) P symQ fields (fun a b => a == b) c proto grp
+      (c', showVia r ++ " ; scratch " ++ showRes (verifyGroup (symEnv pre) P grp))
+    | none => (c, "bad-op")
+  | _ => (c, "bad-op")
 
 /-! ### evaluator layer: accounts with an AuthAddr, groups of (sender, AuthAddr field, RekeyTo) -/
 
@@ -242,9 +290,14 @@ def evalStep (a : Accts) (line : String) : Accts × String :=
     | none => (a, "bad-op")
   | _ => (a, "bad-op")
 
-def step (a : Accts) (line : String) : Accts × String :=
+structure State where
+  accts : Accts := []
+  cache : Cache := []
+
+def step (fieldsCompared : List Field) (st : State) (line : String) : State × String :=
   match fields line with
-  | "g" :: rest => (a, handleGroup rest)
-  | _ => evalStep a line
+  | "g" :: rest => (st, handleGroup rest)
+  | "c" :: rest => let (c, out) := cacheStep fieldsCompared st.cache rest; ({ st with cache := c }, out)
+  | _ => let (a, out) := evalStep st.accts line; ({ st with accts := a }, out)
 
 end AlgoVerif.Driver.C28
